@@ -68,6 +68,7 @@ func (p *progressMeter) Start(format string) {
 	go func() {
 		for {
 			<-ticker.C
+			simYield("tick")
 			p.lock.Lock()
 			if p.ticker != ticker {
 				// We're done.
